@@ -22,8 +22,10 @@
     clause of `inplace_correct_partial` (C01: what the patcher writes for file `i` is exactly the new content;
     C14: an applied overlay yields the content that was written through it).
 
-  `_partial`: as for `commit_correct_partial`, the statement carries `NoKindClash` (finding F8) and
-  `NoTempNames`.  Nothing else is assumed.
+  `_partial`: as for `commit_correct_partial`, the statement carries `NoKindClash` (finding F8).  Nothing else
+  is assumed.  (The former hypothesis `NoTempNames` is gone since the fix of F22: the temporary names skip the
+  paths in use.  `inplace_lookalike_ok` at the end runs the whole chain on builds that contain files named like
+  temporary names.)
 -/
 import Wharf.Props.C01
 import Wharf.Props.C02
@@ -110,13 +112,13 @@ theorem work_of_patch_ok (P : Rsync.Params) (hbs : 0 < P.bs) (hmx : 0 < P.maxDat
   work_of_patch_ok_names pathStr P hbs hmx old new r h
 
 /-- C02 end to end (in-place patching ends with exactly the new build): for well-formed builds without kind
-    clash (F8) and without temporary-looking names, the patcher model applied to the patch the differ writes
+    clash (F8), the patcher model applied to the patch the differ writes
     for (old, new) succeeds with some result `r`; what it wrote for the new files (the stage, represented by
     contents) is exactly the new contents in order; and committing the work recorded from `r.calls` onto the
     tree holding exactly the old build succeeds and yields a tree holding exactly the new build — for every
     pair of visiting orders of the two transposition map loops. -/
 theorem inplace_correct_partial (P : Rsync.Params) (hbs : 0 < P.bs) (hmx : 0 < P.maxDataOp) (old new : Build)
-    (hold : BuildWF old) (hnew : BuildWF new) (hk : NoKindClash old new) (hnt : NoTempNames old new) :
+    (hold : BuildWF old) (hnew : BuildWF new) (hk : NoKindClash old new) :
     ∃ r, patch (C01.envOf P.bs (poolFiles old) (poolFiles new) none)
             (writePatch P (poolFiles old) (poolFiles new)) = .ok r ∧
       r.out = (List.range new.files.length).zip (new.files.map (·.2)) ∧
@@ -133,20 +135,20 @@ theorem inplace_correct_partial (P : Rsync.Params) (hbs : 0 < P.bs) (hmx : 0 < P
     intro x _
     exact ofList_toList x.2
   · intro order₁ order₂ ho₁ ho₂
-    exact commit_correct_partial old new _ order₁ order₂ hold hnew hk hnt
+    exact commit_correct_partial old new _ order₁ order₂ hold hnew hk
       (work_of_patch_ok P hbs hmx old new r hr) ho₁ ho₂
 
 /-- The same, in the form "whatever the patcher returns": any successful result of the patcher model on the
     written patch leads to a commit that ends with exactly the new build. -/
 theorem inplace_commit_of_patch_partial (P : Rsync.Params) (hbs : 0 < P.bs) (hmx : 0 < P.maxDataOp)
     (old new : Build) (r : Res) (order₁ order₂ : List Path)
-    (hold : BuildWF old) (hnew : BuildWF new) (hk : NoKindClash old new) (hnt : NoTempNames old new)
+    (hold : BuildWF old) (hnew : BuildWF new) (hk : NoKindClash old new)
     (h : patch (C01.envOf P.bs (poolFiles old) (poolFiles new) none)
           (writePatch P (poolFiles old) (poolFiles new)) = .ok r)
     (ho₁ : order₁.Perm (sourcesOf old new (workOf old new r.calls)))
     (ho₂ : order₂.Perm (sourcesOf old new (workOf old new r.calls))) :
     ∃ t', commit old new (workOf old new r.calls) order₁ order₂ (treeOfBuild old) = .ok t' ∧ Holds t' new :=
-  commit_correct_partial old new _ order₁ order₂ hold hnew hk hnt (work_of_patch_ok P hbs hmx old new r h) ho₁ ho₂
+  commit_correct_partial old new _ order₁ order₂ hold hnew hk (work_of_patch_ok P hbs hmx old new r h) ho₁ ho₂
 
 /-! ### non-vacuity
 
@@ -170,7 +172,6 @@ def e2eNew : Build :=
 theorem e2eOld_wf : BuildWF e2eOld := ⟨by decide, by decide, parents_of_check (by decide)⟩
 theorem e2eNew_wf : BuildWF e2eNew := ⟨by decide, by decide, parents_of_check (by decide)⟩
 theorem e2e_nkc : NoKindClash e2eOld e2eNew := NoKindClash.of_check (by decide)
-theorem e2e_ntn : NoTempNames e2eOld e2eNew := NoTempNames.of_short (by decide) (by decide)
 
 /-- the calls the patcher makes on the example (block size 2) -/
 theorem e2e_calls :
@@ -195,7 +196,7 @@ example :
       ∃ t', commit e2eOld e2eNew (workOf e2eOld e2eNew r.calls) [["a"], ["same"], ["b"]] [["b"], ["a"], ["same"]]
               (treeOfBuild e2eOld) = .ok t' ∧ Holds t' e2eNew := by
   obtain ⟨r, hr, _, hc⟩ := inplace_correct_partial ⟨2, 8⟩ (by decide) (by decide) e2eOld e2eNew
-    e2eOld_wf e2eNew_wf e2e_nkc e2e_ntn
+    e2eOld_wf e2eNew_wf e2e_nkc
   have hcalls : r.calls =
       [.transpose 0 1, .transpose 1 0, .getWriter 2, .getWriter 3, .transpose 4 4, .getWriter 5] := by
     have := e2e_calls
@@ -204,5 +205,72 @@ example :
   refine ⟨r, hr, hcalls, hc _ _ ?_ ?_⟩
   · rw [hcalls]; decide
   · rw [hcalls]; decide
+
+/-! ### F22 end to end: builds that contain files named like temporary names
+
+  `laOld`/`laNew` (Props/C02.lean): a swap `a <-> b` next to the files `a.butler-rename-1` and
+  `b.butler-rename-2`.  The patcher records the four transpositions by itself, and the commit yields exactly the
+  new build for every pair of visiting orders — before the fix of F22 this pair of builds was excluded by
+  `NoTempNames`, and the old model/code lost the two look-alike files when `b`'s group was visited first. -/
+
+/-- the calls the patcher makes on the look-alike builds (block size 2) -/
+theorem la_calls :
+    (match patch (C01.envOf 2 (poolFiles laOld) (poolFiles laNew) none)
+        (writePatch ⟨2, 8⟩ (poolFiles laOld) (poolFiles laNew)) with
+     | .ok r => r.calls
+     | _ => []) =
+    [.transpose 0 1, .transpose 1 0, .transpose 2 2, .transpose 3 3] := by
+  decide
+
+/-- the work derived from them is `laWork` -/
+theorem la_workOf :
+    workOf laOld laNew [.transpose 0 1, .transpose 1 0, .transpose 2 2, .transpose 3 3] = laWork := by
+  have h : ∀ w : Work, w.transpositions = laWork.transpositions ∧ w.overlayFiles = laWork.overlayFiles ∧
+      w.moveFiles = laWork.moveFiles → w = laWork := by
+    intro w hw
+    cases w
+    obtain ⟨h1, h2, h3⟩ := hw
+    simp only at h1 h2 h3
+    subst h1; subst h2; subst h3
+    rfl
+  exact h _ (by decide)
+
+theorem inplace_lookalike_ok (order₁ order₂ : List Path)
+    (ho₁ : order₁.Perm [["b"], ["a"], ["a.butler-rename-1"], ["b.butler-rename-2"]])
+    (ho₂ : order₂.Perm [["b"], ["a"], ["a.butler-rename-1"], ["b.butler-rename-2"]]) :
+    ∃ r, patch (C01.envOf 2 (poolFiles laOld) (poolFiles laNew) none)
+            (writePatch ⟨2, 8⟩ (poolFiles laOld) (poolFiles laNew)) = .ok r ∧
+      workOf laOld laNew r.calls = laWork ∧
+      ∃ t', commit laOld laNew (workOf laOld laNew r.calls) order₁ order₂ (treeOfBuild laOld) = .ok t' ∧
+        Holds t' laNew := by
+  obtain ⟨r, hr, _, hc⟩ := inplace_correct_partial ⟨2, 8⟩ (by decide) (by decide) laOld laNew
+    laOld_wf laNew_wf la_nkc
+  have hcalls : r.calls = [.transpose 0 1, .transpose 1 0, .transpose 2 2, .transpose 3 3] := by
+    have := la_calls
+    rw [hr] at this
+    exact this
+  have hw : workOf laOld laNew r.calls = laWork := by rw [hcalls]; exact la_workOf
+  refine ⟨r, hr, hw, hc _ _ ?_ ?_⟩
+  · rw [hw, la_sources]; exact ho₁
+  · rw [hw, la_sources]; exact ho₂
+
+/-- in particular for the order on which the look-alike files used to be lost, and for another one -/
+example : ∃ r, patch (C01.envOf 2 (poolFiles laOld) (poolFiles laNew) none)
+            (writePatch ⟨2, 8⟩ (poolFiles laOld) (poolFiles laNew)) = .ok r ∧
+      workOf laOld laNew r.calls = laWork ∧
+      ∃ t', commit laOld laNew (workOf laOld laNew r.calls)
+              [["b"], ["a"], ["a.butler-rename-1"], ["b.butler-rename-2"]]
+              [["a"], ["b"], ["a.butler-rename-1"], ["b.butler-rename-2"]] (treeOfBuild laOld) = .ok t' ∧
+        Holds t' laNew :=
+  inplace_lookalike_ok _ _ (by decide) (by decide)
+
+example : ∃ r, patch (C01.envOf 2 (poolFiles laOld) (poolFiles laNew) none)
+            (writePatch ⟨2, 8⟩ (poolFiles laOld) (poolFiles laNew)) = .ok r ∧
+      workOf laOld laNew r.calls = laWork ∧
+      ∃ t', commit laOld laNew (workOf laOld laNew r.calls)
+              [["a"], ["b.butler-rename-2"], ["b"], ["a.butler-rename-1"]]
+              [["b.butler-rename-2"], ["b"], ["a.butler-rename-1"], ["a"]] (treeOfBuild laOld) = .ok t' ∧
+        Holds t' laNew :=
+  inplace_lookalike_ok _ _ (by decide) (by decide)
 
 end Wharf.C02
